@@ -131,12 +131,18 @@ void profile_storm(RunCtx& ctx)
             for (int f = 0; f < nf; ++f) {
                 std::string d;
                 int g = rng.below(10);
-                if (g < 5)
-                    c.bytes = apply_struct_fault(c.bytes, rng.below(SF_COUNT), rng, d);
-                else if (g < 8)
+                if (g < 5) {
+                    int k = rng.below(SF_COUNT);
+                    c.bytes = apply_struct_fault(c.bytes, k, rng, d);
+                    ctx.count(std::string{"content-fault:structure:"} + struct_fault_name(k));
+                } else if (g < 8) {
                     c.bytes = apply_random_token_fault_xml(c.bytes, rng, d);
-                else
-                    c.bytes = apply_byte_fault(c.bytes, rng.below(BF_COUNT), rng, d);
+                    ctx.count("content-fault:token-in-xml-block");
+                } else {
+                    int k = rng.below(BF_COUNT);
+                    c.bytes = apply_byte_fault(c.bytes, k, rng, d);
+                    ctx.count(std::string{"content-fault:byte:"} + byte_fault_name(k));
+                }
                 what += "+" + d;
             }
         } else if (kind < 65) {
@@ -160,10 +166,14 @@ void profile_storm(RunCtx& ctx)
             }
             for (int f = 0; f < nf; ++f) {
                 std::string d;
-                if (rng.chance(0.7))
+                if (rng.chance(0.7)) {
                     c.bytes = apply_random_token_fault_text(c.bytes, rng, d);
-                else
-                    c.bytes = apply_byte_fault(c.bytes, rng.below(BF_COUNT), rng, d);
+                    ctx.count("content-fault:token-in-text");
+                } else {
+                    int k = rng.below(BF_COUNT);
+                    c.bytes = apply_byte_fault(c.bytes, k, rng, d);
+                    ctx.count(std::string{"content-fault:byte:"} + byte_fault_name(k));
+                }
                 what += "+" + d;
             }
         } else if (kind < 85) {
